@@ -365,6 +365,38 @@ def run_current_rule(acc):
                                 name, cur, 'S4')
                     acc.outcome('cr-%s' % kind)
         acc.sample('S4', rules)
+    # an UNDEFINED reference falls back to the default rule: the checks in the
+    # default's body are still told the enforced policy name
+    for body in ('rule:nowhere', 'not rule:nowhere', 'rule:nowhere and @',
+                 '! or (rule:nowhere)', 'rule:hop'):
+        for kind in ('vrec4', 'vrec3'):
+            rules = {'svc:q': body, 'hop': 'rule:nowhere2',
+                     'dflt': '%s:t' % kind}
+            world.set_rules(enf, rules, default_rule='dflt')
+            enf.rules.default_rule = 'dflt'
+            del RECORD[:]
+            acc.case('S4', True)
+            acc.ev()
+            got = world.decide(enf, 'svc:q', {}, {'roles': []})
+            exp = not body.startswith('not')
+            case = {'rules': rules, 'default': 'dflt', 'enforce': 'svc:q'}
+            if got != ('ok', exp):
+                acc.violation('S4|default-fallback|decision|%s' % kind,
+                              'undefined reference with default: got %r '
+                              'expected %r' % (got, exp), case, exp, got,
+                              'S4')
+            for k, m, cur in RECORD:
+                if k == 'vrec4' and cur != 'svc:q':
+                    acc.violation('S4|current_rule|default-fallback',
+                                  'check in the default rule was told '
+                                  'current_rule=%r while svc:q is enforced'
+                                  % (cur,), case, 'svc:q', cur, 'S4')
+            if not RECORD:
+                acc.violation('S4|default-fallback|not-called',
+                              'default rule body never evaluated', case,
+                              'called', 'not called', 'S4')
+            acc.outcome('cr-default-%s' % kind)
+    enf.rules.default_rule = None
     # a check object passed to enforce(): no name is known
     from oslo_policy import _parser
     del RECORD[:]
